@@ -2,7 +2,7 @@
 from engine import *
 import sym
 
-CONFIGS_QUICK = ["F_def"]
+CONFIGS_QUICK = ["F_def", "F_all"]  # every configuration whose cfg-gated code the property depends on
 CONFIGS_THOROUGH = ["F_def", "F_all"]
 TECHNIQUE = 'static analysis: decision-table extraction (emit_end) by symbolic path walking over rustc MIR, operand provenance of the comparison, push/pop/truncate pairing'
 EXPLANATION = (
